@@ -450,6 +450,13 @@ func init() {
 		return v
 	})
 	reg("math/rand.Seed", func(e *Engine, args []Value, fn *ssa.Function) Value { return nil })
+	// hash compression functions (assembly): not executed; the digest value is an opaque constant.
+	// No harness compares a digest with a reference (MD5 of the JA3 string is outside C13's claim).
+	for _, n := range []string{"crypto/sha1.block", "crypto/sha1.blockAMD64", "crypto/md5.block", "crypto/sha256.block", "crypto/sha512.block"} {
+		reg(n, func(e *Engine, args []Value, fn *ssa.Function) Value { return nil })
+	}
+	reg("crypto/internal/boring/sig.StandardCrypto", func(e *Engine, args []Value, fn *ssa.Function) Value { return nil })
+	reg("crypto/internal/boring/sig.BoringCrypto", func(e *Engine, args []Value, fn *ssa.Function) Value { return nil })
 }
 
 type uniqueEnt struct {
